@@ -7,8 +7,10 @@ set -u
 patch=$(readlink -f "$1"); tier=$2; shift 2
 mr=/tmp/mrepo; mv=/tmp/mverif
 mkdir -p $mr $mv
-rsync -a --delete --exclude target --exclude .git /repo/ $mr/ || exit 2
+# --checksum without -t: a file whose content changed (also back to the original) gets a fresh mtime, otherwise cargo's
+# mtime fingerprints would keep the object code of the previous seeded change
+rsync -rlpgoD --checksum --delete --exclude target --exclude .git /repo/ $mr/ || exit 2
 (cd $mr && patch -p1 --quiet < "$patch") || { echo "patch does not apply"; exit 2; }
-rsync -a --delete --exclude target --exclude evidence --exclude .git /verif/ $mv/ || exit 2
+rsync -rlpgoD --checksum --delete --exclude target --exclude evidence --exclude .git /verif/ $mv/ || exit 2
 mkdir -p $mv/evidence
 unshare -m bash -c "mount --bind $mr /repo && cd $mv && for p in $*; do out=\$(./check \$p --tier $tier 2>&1); rc=\$?; nv=\$(echo \"\$out\" | grep -c '^VIOLATION'); echo \"== \$p rc=\$rc violations_printed=\$nv\"; echo \"\$out\" | grep -A1 '^VIOLATION' | head -6 | cut -c1-300; echo \"\$out\" | grep -E 'HARNESS-ERROR|INCONCLUSIVE' | head -3 | cut -c1-300; done"
